@@ -2478,7 +2478,13 @@ def check_C13(ctx):
             xmls = [('string', c.xml(), True), ('string-one-chunk', c.xml(one_line=True), True), ('file', xf, False),
                     ('file-one-line', xf1, False), ('gzip', xgz, False), ('gzip-multi-member', xgzm, False)]
             for tf, tv, tk in trees:
-                for ui in ((True,) if any(len(n_.kids) == 1 for n_ in c.tree.nodes()) else (True, False)):
+                # synthesised names must be pairwise different (the taxonomy refuses the tree otherwise, F6 / F12:
+                # e.g. a leaf 'q/p/p' beside the clade of 'q' and 'p/p'); such a tree is outside the domain for ui = False
+                _sn = [n_.name for n_ in gen.synth_names(c.tree).nodes()]
+                synth_ok = len(set(_sn)) == len(_sn)
+                if not synth_ok:
+                    ctx.counts['synthesised_names_ambiguous_outside_domain'] += 1
+                for ui in ((True,) if (not synth_ok or any(len(n_.kids) == 1 for n_ in c.tree.nodes())) else (True, False)):
                     for xn, xv, as_str in xmls:
                         for prog in (False, True):
                             configs.append((tf, tv, tk, ui, xn, xv, as_str, prog))
